@@ -255,6 +255,7 @@ class Report(object):
                 'histogram': dict(sorted(p.hist.items(), key=lambda kv: str(kv[0]))),
                 'bounds': part['bounds'], 'exhaustive': part['exhaustive'], 'rule': part['rule'],
                 'caps_hit': part['caps_hit'], 'finished_at_s': part['t'],
+                'violation_signatures': dict(p.sigs.most_common(60)),
             }
             parts[name].update(part['extra'])
             tot['nodes'] += p.n['nodes']
